@@ -90,7 +90,7 @@ def join_consistency(points):
     return bad, len(seen)
 
 
-def scale_programs():
+def scale_programs(quick=True):
     """Programs with a known result whose size parameter sweeps across the encoding limits."""
     out = []
     for n in (1, 100, 200, 250, 253, 254, 255, 256, 257, 300):
@@ -120,6 +120,19 @@ def scale_programs():
         body = "".join("  x = x + 1\n" for _ in range(n))
         src = "x = 0\nif x == 0\n" + body + "x\n"
         out.append(("ifbody%d" % n, src, str(n)))
+    # byte-exact sweep across the 16-bit jump distance: fillers of 3 bytes (`x = 7`) and 2 bytes (`x = 0`) give every body
+    # size k, so every distance in the window occurs, for backward jumps (loop, for, while, continue) and forward ones (if)
+    def filler(k):
+        pad = {0: 0, 2: 1, 1: 2}[k % 3]
+        return ["  x = 0"] * pad + ["  x = 7"] * ((k - 2 * pad) // 3)
+    for k in range(65505, 65541) if quick else range(65470, 65560):
+        out.append(("jloop%d" % k, "\n".join(["i = 0", "x = 0", "loop", "  i += 1", "  if i > 3", "    break"] + filler(k) + ["i"]) + "\n", "4"))
+        out.append(("jfor%d" % k, "\n".join(["n = 0", "x = 0", "for i in 0..4", "  n += 1"] + filler(k) + ["n"]) + "\n", "4"))
+        out.append(("jwhile%d" % k, "\n".join(["i = 0", "x = 0", "while i < 4", "  i += 1"] + filler(k) + ["i"]) + "\n", "4"))
+        out.append(("jif%d" % k, "\n".join(["t = true", "x = 0", "if t"] + filler(k) + ["x"]) + "\n", "7"))
+        if not quick:
+            out.append(("jcont%d" % k, "\n".join(["n = 0", "x = 0", "for i in 0..4", "  n += 1"] + filler(k) + ["  if x == 7", "    continue", "  n = 100", "n"]) + "\n", "4"))
+            out.append(("juntil%d" % k, "\n".join(["i = 0", "x = 0", "until i >= 4", "  i += 1"] + filler(k) + ["i"]) + "\n", "4"))
     for n in (1, 50, 200, 250, 256):
         # many captures
         src = "".join("c%d = %d\n" % (i, i) for i in range(n)) + "f = || " + " + ".join("c%d" % i for i in range(n)) + "\nf()\n"
@@ -148,7 +161,7 @@ def run(tier, seed):
         for s in corpus.sources():
             for k, v in enumerate(corpus.token_neighbourhood(s["src"], rng, 12)):
                 texts.append(("mut:%s:%d" % (s["name"], k), v))
-    scale = scale_programs()
+    scale = scale_programs(quick)
     for n, src, _ in scale:
         texts.append(("scale:" + n, src))
     # compile-only scale programs (they cannot run: the modules do not exist): many import items, with the value used
@@ -184,7 +197,7 @@ def run(tier, seed):
         rep.violation("join_%s_%d" % (b["chunk"], b["ip"]), {"property": PROP, "why": "ip %d is reached with different builder/try stack shapes %s" % (b["ip"], b["shapes"]),
                                                               "source": srcs.get(b["chunk"], "")})
     # limits: compile error, or well-formed code that computes the known result
-    runs = common.kv_parallel("run", [{"id": n, "src": src, "limit_ms": 20000} for n, src, _ in scale], shards=4, per_job_timeout=60)
+    runs = common.kv_parallel("run", [{"id": n, "src": src, "limit_ms": 20000} for n, src, _ in scale], shards=12, per_job_timeout=60)
     scale_ok = scale_rej = 0
     for (n, src, want), r in zip(scale, runs):
         if r.get("status") == "compile_error":
@@ -197,7 +210,7 @@ def run(tier, seed):
             continue
         if r.get("status") != "ok" or r.get("value") != want:
             rep.violation("scale_%s" % n, {"property": PROP, "why": "size-scaled program neither rejected by the compiler nor computing %s: %s %s" % (want, r.get("status"), (r.get("value") or r.get("err_msg") or "")[:200]),
-                                           "source": src[:2000]})
+                                           "source": src[:2000], "scale_name": n, "want": want})
         else:
             scale_ok += 1
     # run time: no internal fault in the corpus' executions (trace validation against KotoVm.tla)
@@ -237,6 +250,14 @@ def run(tier, seed):
 
 def replay(path):
     d = json.load(open(path))
+    if "scale_name" in d:
+        # the source is regenerated from its name (the replay file holds its first lines only)
+        src = [x for x in scale_programs(False) + scale_programs(True) if x[0] == d["scale_name"]][0][1]
+        r = common.kv("run", [{"id": "replay", "src": src, "limit_ms": 20000}], per_job_timeout=60)[0]
+        print(d["why"]); print("now:", r.get("status"), r.get("value"))
+        if r.get("status") != "compile_error" and (r.get("status") != "ok" or r.get("value") != d["want"]):
+            print("VIOLATION property=%s replay=%s" % (PROP, path)); return 1
+        return 0
     r = common.kv("chunk", [{"id": "replay", "src": d["source"]}])[0]
     if r.get("status") != "ok":
         print(r.get("status"), r.get("err_msg")); return 0
